@@ -105,7 +105,12 @@ def rules(model: Model, tier: str) -> List[RuleResult]:
         _ac.ac11_forward_provenance(model, _fc, _R11)
     from ..rules import substitution as _subst
     _sub = _subst.rules(model, PROP, tier)
-    return [W, W2, P, Wp, T, S, B, Z, N, E, _R11, *_sub]
+    from ..rules import linopalg
+    SH = RuleResult(PROP, "C01-SH", "composed operators report the broadcast batch shape (solve sizes its right-hand side, initial guess and result from A.shape)", min_instances=4)
+    linopalg.constructor_shapes(model, SH, tier)
+    HF = RuleResult(PROP, "C01-HF", "Hermitian flag of composed operators (cg and the normal-equation fallback branch on it)", min_instances=4)
+    linopalg.hermitian_flags(model, HF)
+    return [W, W2, P, Wp, T, S, B, Z, N, E, _R11, SH, HF, *_sub]
 
 
 # ------------------------------------------------------------------------------------------------
